@@ -25,7 +25,7 @@ package keeper
 //@   returns err
 //@   modifies fstate, bal, supply
 //@   ensures creator_only: err == nil ==> has(feeds, msg.FeedName) && msg.Creator == get(feeds, msg.FeedName).Creator
-//@   ensures not_running:  err == nil ==> foreign("GetRequestContext", 1, 0).State != RUNNING
+//@   ensures not_running:  err == nil ==> old(svcstate(unhex(get(feeds, msg.FeedName).RequestContextID))) != RUNNING
 //@   ensures queued:       err == nil ==> fstate == set(del(old(fstate), msg.FeedName, PAUSED), msg.FeedName, RUNNING, msg.FeedName)
 //@   ensures rejected:     err != nil ==> fstate == old(fstate)
 //@ end
@@ -35,7 +35,7 @@ package keeper
 //@   returns err
 //@   modifies fstate, bal, supply
 //@   ensures creator_only: err == nil ==> has(feeds, msg.FeedName) && msg.Creator == get(feeds, msg.FeedName).Creator
-//@   ensures was_running:  err == nil ==> foreign("GetRequestContext", 1, 0).State == RUNNING
+//@   ensures was_running:  err == nil ==> old(svcstate(unhex(get(feeds, msg.FeedName).RequestContextID))) == RUNNING
 //@   ensures queued:       err == nil ==> fstate == set(del(old(fstate), msg.FeedName, RUNNING), msg.FeedName, PAUSED, msg.FeedName)
 //@   ensures rejected:     err != nil ==> fstate == old(fstate)
 //@ end
@@ -46,8 +46,8 @@ package keeper
 //@   requires has(byCtx, requestContextID) && has(feeds, get(byCtx, requestContextID))
 //@   let name = get(feeds, get(byCtx, requestContextID)).FeedName
 //@   modifies fstate, bal, supply
-//@   ensures mirrors_paused:  foreign("GetRequestContext", 1, 1) && foreign("GetRequestContext", 1, 0).State == PAUSED ==> mirrors(name, PAUSED, RUNNING)
-//@   ensures mirrors_running: foreign("GetRequestContext", 1, 1) && foreign("GetRequestContext", 1, 0).State == RUNNING ==> mirrors(name, RUNNING, PAUSED)
+//@   ensures mirrors_paused:  old(svcfound(requestContextID)) && old(svcstate(requestContextID)) == PAUSED ==> mirrors(name, PAUSED, RUNNING)
+//@   ensures mirrors_running: old(svcfound(requestContextID)) && old(svcstate(requestContextID)) == RUNNING ==> mirrors(name, RUNNING, PAUSED)
 //@ end
 
 // The service module reports the outcome of a batch: a failed batch (no output, or reported with an error such as a
@@ -82,6 +82,15 @@ package keeper
 //@   invariant #1 pos: 0 <= it_idx && it_idx <= it_n && i == it_idx
 //@   witness count_def: CNT(values, feedName) == it_n
 //@   ensures counts: i == CNT(values, feedName)
+//@ end
+
+// all recorded values of a feed (newest first): as many as are stored
+//@ func Keeper.GetFeedValues(ctx, feedName)
+//@   property C12, C17
+//@   returns result
+//@   invariant #1 pos: 0 <= it_idx && it_idx <= it_n && len(result) == it_idx
+//@   witness count_def: CNT(values, feedName) == it_n
+//@   ensures all_values: len(result) == CNT(values, feedName)
 //@ end
 
 //@ func Keeper.deleteOldestFeedValue(ctx, feedName, delta)
